@@ -23,7 +23,7 @@ REPO = os.environ.get('TOPSIM_REPO', '/repo')
 
 DET_CASES = [('sim', 'general', 40), ('sim', 'adv', 30), ('sim', 'contend', 30), ('sim', 'real', 15), ('sim', 'plan', 25),
              ('sim', 'batch', 20), ('sim', 'buffer', 20), ('sim', 'delay', 10), ('cluster_ops', '-', 60),
-             ('buffer_ops', '-', 60), ('units', 'units', 15), ('delaymodel', '-', 30), ('pause', 'real', 3)]
+             ('buffer_ops', '-', 60), ('units', 'units', 15), ('delaymodel', '-', 30), ('pause', 'real', 3), ('pause_sample', 'real', 6)]
 
 
 def _det_one(args):
@@ -153,6 +153,7 @@ MUTATIONS = [
      [('topsim/core/scheduler.py', 'if self.provision_ingest + pipeline_demand <= max_ingest:', 'if self.provision_ingest <= max_ingest:')]),
     ('M27', 'C04', 'topsim/core/buffer.py', "            self.observations['scheduled'].append(self.observations['stored'].pop())\n            return self.observations['scheduled'][-1]",
      "            self.observations['scheduled'].append(self.observations['stored'][-1])\n            return self.observations['scheduled'][-1]", []),
+    ('M29', 'C05', 'topsim/core/machine.py', '            if task.task_status is TaskStatus.SCHEDULED:', '            if task.task_status is TaskStatus.SCHEDULED and task.duration != 7:', []),
     ('M28', 'C06', 'topsim/core/cluster.py', '            t.duration = observation.duration\n', '            t.duration = observation.duration + 1\n', []),
 ]
 
